@@ -751,7 +751,14 @@ func (p *parser) parseField(node *node32) (field *Field, err error) {
 				f.ReservedComments = reservedComments
 			}
 		case ruleFieldId:
-			i, _ := strconv.ParseInt(p.pegText(node), 10, 32)
+			// decimal as before (also zero-padded, e.g. "08"); hex/octal spellings by their prefix
+			i, err := strconv.ParseInt(p.pegText(node), 10, 32)
+			if err != nil {
+				i, err = strconv.ParseInt(p.pegText(node), 0, 32)
+			}
+			if err != nil {
+				return nil, fmt.Errorf("parseField failed at field id '%s': %w", p.pegText(node), err)
+			}
 			f.ID = int32(i)
 		case ruleFieldReq:
 			require := p.pegText(node)
